@@ -609,8 +609,13 @@ class Folder:
             if isinstance(node.op, ast.Not):
                 return not truth(v)
             if isinstance(node.op, ast.Invert):
-                r_ = _ew(lambda x: (not x) if isinstance(x, bool) else (1 - x if x in (0, 1) else ~x), v)
-                return _mask(r_) if isinstance(v, BoolList) else r_
+                if isinstance(v, (BoolList, bool)):
+                    r_ = _ew(lambda x: (not x) if isinstance(x, bool) else 1 - x, v)  # logical not of a boolean tensor
+                    return _mask(r_) if isinstance(v, BoolList) else r_
+                try:
+                    return _ew(lambda x: ~x, v)  # bitwise complement of integers
+                except TypeError as exc:
+                    raise Unfoldable(str(exc))
             raise Unfoldable("unary")
         if isinstance(node, ast.BinOp):
             a, b = self.fold(node.left), self.fold(node.right)
@@ -749,6 +754,12 @@ class Folder:
                 # python sequences (shapes, tuples) compare as wholes
                 same_ = list(a) == list(b)
                 return same_ if isinstance(node.ops[0], ast.Eq) else not same_
+            if isinstance(a, PySeq) and isinstance(b, PySeq):
+                try:
+                    la_, lb_ = list(a), list(b)
+                    return {ast.Lt: la_ < lb_, ast.Gt: la_ > lb_, ast.LtE: la_ <= lb_, ast.GtE: la_ >= lb_}[type(node.ops[0])]  # lexicographic
+                except TypeError as exc:
+                    raise Unfoldable(str(exc))
             f = {ast.Lt: lambda x, y: int(x < y), ast.Gt: lambda x, y: int(x > y), ast.LtE: lambda x, y: int(x <= y), ast.GtE: lambda x, y: int(x >= y), ast.Eq: lambda x, y: int(x == y), ast.NotEq: lambda x, y: int(x != y)}[type(node.ops[0])]
             try:
                 r_ = _ew(f, a, b)
